@@ -86,7 +86,18 @@ def _norm(t):
         v = _range_item_value(t)
         if v is not None:
             return v
+        c = strip(t[1])
+        if c[0] == "call" and c[1].endswith("::checked_sub") and len(c[2]) == 2:
+            a, b = _norm(c[2][0]), _norm(c[2][1])
+            if b[0] is None:
+                return (a[0], a[1] - b[1])
+    if t[0] == "call" and t[1].endswith("::len") and len(t[2]) == 1 and t in _LEN_AT:
+        # the length of a vector that is only popped from: its length at entry minus the pops made before this call
+        return (("len0", strip(t[2][0])), -_LEN_AT[t])
     return (t, 0)
+
+
+_LEN_AT = {}
 
 
 def _range_ends(it):
@@ -207,6 +218,8 @@ def _norm_idx(t, P):
         return ("abs", off)
     if isinstance(base, tuple) and base and base[0] == "call" and base[1].endswith("::len") and mentions(base, lambda x: x == P):
         return ("end", -off)
+    if isinstance(base, tuple) and len(base) == 2 and base[0] == "len0" and mentions(base[1], lambda x: x == P):
+        return ("end", -off)
     return (None, 0)
 
 
@@ -218,7 +231,17 @@ def _feasible(p):
     """False when the path takes a branch on a comparison of two counters with the same symbolic base the wrong way
     (`i - 1 == i` taken as true): an artefact of walking a loop body twice without knowing the counter moved."""
     equal_to = {}
+    pops = {}
     for e in p.events:
+        if e["k"] == "call" and e.get("args"):
+            last = e["callee"].split("::")[-1]
+            v0 = strip(e["args"][0])
+            if last in ("pop", "remove", "swap_remove") and "Vec" in e["callee"]:
+                pops[v0] = pops.get(v0, 0) + 1
+            elif last in ("push", "insert", "append", "extend") and "Vec" in e["callee"]:
+                pops[v0] = None            # grows: lengths are no longer told apart
+            elif last == "len" and e.get("result") is not None and pops.get(v0, 0) is not None:
+                _LEN_AT[strip(e["result"])] = pops.get(v0, 0)
         if e["k"] != "branch" or not isinstance(e["value"], bool):
             continue
         c = strip(e["cond"])
